@@ -1,9 +1,9 @@
 SPECIFICATION Spec
 CONSTANTS
   Depth = 1
-  MaxMut = 1
+  MaxMut = 2
   Mode = "base"
-  ModelIds = {"prims", "enums", "hier", "mixin", "rec", "param_8_32", "param_22_15"}
+  ModelIds = {"param_8_32"}
 INVARIANT InstanceTyped
 INVARIANT RoundTrip
 INVARIANT Monotone
